@@ -18,6 +18,12 @@ def run(chk, tier):
                       ([("vprims_be", "c++20"), ("vprims_le", "c++20"), ("vprims_be", "c++11"), ("vdims", "c++17"), ("vheaders", "c++17")] if tier == "thorough"
                        else [("vprims_be", "c++20"), ("vprims_le", "c++20")])):
         spec_codec.check(chk, lib_for(name, std), ("set",))
+    # where the next variable-length member is written follows from size_bytes of the one before it: the group size rows
+    # (H + numInGroup * blockLength computed without truncation, nested sizes, first member at level + wire blockLength)
+    import spec_group
+    glib = lib_for("vdims", "c++17")
+    spec_group.check_groups(chk, glib, limit=None if tier == "thorough" else 8)
+    spec_group.check_bases(chk, glib, limit=None if tier == "thorough" else 8)
     spec_layout.check_validator_recurrence(chk)
     e4.check(chk, ("accessors", "cursor", "fillers"), tier)
     chk.floor("CODEC.set instantiations", chk.rule_counts.get("CODEC.set", 0), 40)
